@@ -205,6 +205,18 @@ void defect_case(Ctx &c) {
         }
         c.count("defect_opens");
     }
+    // a path that names no file - a plain missing name, a name in a missing directory, a symbolic link whose target does not exist -
+    // is refused in ReadOnly mode and nothing is created, not the link's target either
+    for (int k = 0; k < 3; k++) {
+        std::string target = c.path("absent-target.nix"), q = k == 0 ? c.path("absent.nix") : k == 1 ? c.path("no-such-dir") + "/x.nix" : c.path("dangling.lnk"); const char *kn = k == 0 ? "missing-path" : k == 1 ? "missing-directory" : "dangling-symlink";
+        unlink(target.c_str()); unlink(q.c_str()); if (k == 2 && symlink(target.c_str(), q.c_str()) != 0) continue;
+        c.op(std::string("open ReadOnly ") + kn);
+        bool opened = false, usable = false; try { File f = File::open(q, FileMode::ReadOnly); opened = f.isOpen(); if (opened) { try { f.createBlock("probe", "t"); usable = f.hasBlock("probe"); } catch (...) {} f.close(); } } catch (std::exception &) {}
+        c.check(!opened, std::string("C09/defect-accepted/ReadOnly/") + kn, [&] { return std::string("ReadOnly open of a ") + kn + " returned a File" + (usable ? " that accepts createBlock" : ""); });
+        struct stat st; bool created = stat(target.c_str(), &st) == 0 || (k != 2 && stat(q.c_str(), &st) == 0);
+        c.check(!created, std::string("C09/readonly/created-a-file/") + kn, "a ReadOnly open of a path without a file created one");
+        unlink(q.c_str()); unlink(target.c_str()); c.count("defect_opens");
+    }
 }
 
 void run_case(Ctx &c) {
